@@ -13,8 +13,8 @@ import (
 
 // ---- contract compressor standing in for gzip and lzw under the symbolic engine ----
 // Compress(x) = 0xC1, pad length, one arbitrary byte, pad bytes, x. It is non-empty even for empty input and its
-// length differs from len(x); the framing overhead is 3 or 13 bytes (forked once per harness run: real gzip adds
-// about twenty bytes to a short record, real lzw next to nothing), so "compressed form much larger than the
+// length differs from len(x); the framing overhead is 3, 13 or 93 bytes (forked once per harness run: real gzip adds
+// about twenty bytes to a short record, real lzw next to nothing - but grows incompressible input by 40 %), so "compressed form much larger than the
 // record" is among the explored cases. Decompress fails on a header it did not write. Natively the real gzip /
 // lzw run.
 
@@ -25,7 +25,7 @@ var vCompPad int
 func vContractCompress(record []byte, dst []byte) ([]byte, error) {
 	vCompN++
 	if vCompPad < 0 {
-		vCompPad = 10 * vrt.Choose("comp.pad", 2)
+		vCompPad = []int{0, 10, 90}[vrt.Choose("comp.pad", 3)]
 	}
 	out := append(dst[:0], 0xC1, byte(vCompPad), vrt.Byte(vrt.K("comp.hdr", vCompN)))
 	for i := 0; i < vCompPad; i++ {
@@ -40,7 +40,7 @@ func vContractDecompress(buf []byte, dst []byte) ([]byte, error) {
 		return nil, vErrContract
 	}
 	n := int(buf[1])
-	if n != 0 && n != 10 || len(buf) < 3+n {
+	if n != 0 && n != 10 && n != 90 || len(buf) < 3+n {
 		return nil, vErrContract
 	}
 	return append(dst[:0], buf[3+n:]...), nil
@@ -115,6 +115,39 @@ func vWriteFile(fs *vrt.FS, path string, comp, wbuf int, recs [][]byte) (offs []
 	size = w.Size()
 	vrt.Assert(w.Close() == nil, "write/close-no-error")
 	return offs, size
+}
+
+// vNativeIncompressible (native runs): a record no compressor can shrink (lzw grows it by about 40 %) goes through the
+// writer and both readers unchanged, whatever the compression type.
+func vNativeIncompressible(fs *vrt.FS, comp int) {
+	if vrt.Symbolic() {
+		return
+	}
+	big := make([]byte, 3000)
+	x := uint32(2463534242)
+	for i := range big {
+		x ^= x << 13
+		x ^= x >> 17
+		x ^= x << 5
+		big[i] = byte(x >> 11)
+	}
+	recs := [][]byte{{1}, big, {2}}
+	p := fs.Path("incompressible.rio")
+	offs, _ := vWriteFile(fs, p, comp, 64, recs)
+	r, err := NewFileReader(ReaderPath(p), ReaderBufferSizeBytes(64))
+	vrt.Assert(err == nil && r.Open() == nil, "incompressible/reader-open-no-error")
+	for i := range recs {
+		got, err := r.ReadNext()
+		vrt.Assert(err == nil && vrt.SameBytes(got, recs[i]), "incompressible/sequential-record-unchanged")
+	}
+	r.Close()
+	m, err := NewMemoryMappedReaderWithPath(p)
+	vrt.Assert(err == nil && m.Open() == nil, "incompressible/mmap-open-no-error")
+	for i := range recs {
+		got, err := m.ReadNextAt(offs[i])
+		vrt.Assert(err == nil && vrt.SameBytes(got, recs[i]), "incompressible/random-access-record-unchanged")
+	}
+	m.Close()
 }
 
 func mmapOpenForHarness(p string) (*mmap.ReaderAt, error) { return mmap.Open(p) }
